@@ -7,6 +7,8 @@ NOREROUTE_SCHED = [False, False, 'resume', 'restart', 'resample']
 PROFILES = {
     'generic': {},
     'lattice': {'p_lattice': 1.0},
+    'k2zone': {'p_kinds': (0.45, 0.0, 0.45, 0.1), 'sched_preempt': ['resume', 'restart', 'resample'], 'slot_preempt': ['resume', 'restart'], 'p_qcap': 0.8, 'p_qcap_sched': 0.3,
+               'qcaps': [0, 0, 1, 2], 'p_avoid_known': 0.0, 'n_nodes': [2, 3], 'arr_scale': 0.7, 'p_ps': 0.0, 'prio_preempt_opts': [False, 'resume', 'restart']},
     'soak': {'horizons': [500.0, 1000.0], 'arr_scale': 2.5, 'srv_scale': 0.5, 'p_qcap': 0.3, 'p_syscap': 0.3, 'n_nodes': [1, 2, 3]},
     'soaklattice': {'horizons': [300.0, 600.0], 'arr_scale': 2.5, 'srv_scale': 0.5, 'p_lattice': 1.0, 'n_nodes': [1, 2, 3]},
     'slotall': {'p_kinds': (0.25, 0.0, 0.0, 0.75), 'p_ps': 0.0, 'p_qcap_sched': 0.3, 'arr_scale': 0.7},
